@@ -78,7 +78,7 @@ def eval_case(args):
 
 
 def family(tier, seed, open_findings):
-    cs = corpus.cases(); nprobe = 12 if tier == 'thorough' else 3
+    cs = [c for c in corpus.cases() if not c['file'].startswith('feature:')]; nprobe = 12 if tier == 'thorough' else 3
     res = pmap(eval_case, [(c, seed, nprobe) for c in cs], chunk=1)
     fails = [dict(case=dict(file=r['case']['file'], ver=r['case']['ver'], locations=r['case']['locations'], defuse=r['case']['defuse'], kind=b[0], seed=seed, nprobe=nprobe), observed=b[1],
                   required='same global components, errors and data as the schema built from the files as they are') for r in res for b in r['bad']]
